@@ -116,10 +116,10 @@ def check_array_dunders(repo: Repo, rep: Report, w: World) -> None:
         for name, meaning in table.items():
             q = f"{cls}.{name}"
             rep.saw(ARRAY, q)
-            if not mod.has_func(q):
+            owner_, fn = w.cw.find_method(cls, name)  # through the MRO: the operator may live on a shared base or mixin
+            if fn is None:
                 rep.finding("OPC-6A", ARRAY, cls, f"missing {q}", f"{q} is not defined: the operator form is no longer available on {cls}")
                 continue
-            fn = mod.func(q)
             unary = name in ("__invert__", "__neg__")
             res_kind = "b" if kind == "b" else INT_OPS[name][0]
             order = kind == "i" and res_kind == "b"
